@@ -447,6 +447,15 @@ Step(e) ==
                  clearEver, closed, openCalls, getsN, dropsN, getsAll, raised, maxMax, keysSeen, begunN, 
                  runN, exitDue, mcOpen, mcN, clrDirty, clrN, lateAdd>>
 
+    [] e.ev = "RingCheck" ->   \* the Get-frequency pipeline driven on its own (harness/cache/ring_test.go.txt)
+         /\ bad' = bad \cup Flag("C17", e.kept + e.dropped <= e.gets, "GetsKept+GetsDropped exceeds the number of Gets")
+                       \cup Flag("C17", \A i \in DOMAIN e.perkey : e.perkey[i][3] <= e.perkey[i][2] \/ e.perkey[i][3] > 15,
+                                 "a key's access-frequency estimate exceeds the number of Gets of that key")
+         /\ UNCHANGED <<tid, cfg, vkey, vcost, vttl, vtb, vte, accepted, refused, exitN, evictN, rejectN, 
+                 exitedAt, pendCb, getSnap, ended, delBefore, cand, waitCov, dead, owed, inClear, 
+                 clearEver, closed, openCalls, getsN, dropsN, getsAll, raised, maxMax, keysSeen, begunN, 
+                 runN, exitDue, mcOpen, mcN, clrDirty, clrN, lateAdd, polCur>>
+
     [] e.ev \in {"Leak", "Panic", "Hang", "Race"} ->
          /\ bad' = bad \cup Flag("C08", FALSE, e.ev \o ": " \o e.what)
                        \cup Flag("C15", e.ev # "Leak", "goroutines of the cache are still blocked after Close")
